@@ -51,6 +51,7 @@ inductive PyExpr where
   | attr (parent attr : String)          -- `math.pi`
   | attrDeep                             -- `a.b.c`
   | boolop (isAnd : Bool) (vals : List PyExpr)
+  | callKw                               -- a call with at least one keyword argument: `max(x, k, key=abs)`
   | other                                -- Lambda, Subscript, Tuple, ...
 deriving Repr, Inhabited
 
